@@ -192,4 +192,55 @@ Proof.
     + apply key_len_ok_iff. right. exact Hk.
 Qed.
 
+(* ------------------------------------------------------------------ Algorithm 1: the bytes that go into the per-object key *)
+(* data_key_bytes: for every file key, object number below 2^24, generation below 2^16 and V < 5, the key the reader model
+   derives (QPDF::compute_data_key) is MD5 over exactly  key ++ the object number as 3 little-endian bytes ++ the
+   generation as 2 little-endian bytes (++ "sAlT" for AES), cut to min(n + 5, 16) bytes; the five bytes determine the
+   object number and the generation (no two objects share them); and this is the key of Algorithm 1 of the standard
+   (IsoRef.iso_object_key) for RC4 with any key length and for AES with keys of at least 11 bytes. For V >= 5 the key is
+   the file key itself (Algorithm 1.A). *)
+Lemma data_key_bytes_lemma : forall (key : list N) (objid gen : N) (aes : bool) (V : N),
+  objid < 16777216 -> gen < 65536 ->
+  let b0 := objid mod 256 in let b1 := (objid / 256) mod 256 in let b2 := objid / 65536 in
+  let g0 := gen mod 256 in let g1 := gen / 256 in
+  let input := key ++ [b0; b1; b2; g0; g1] ++ (if aes then [115; 65; 108; 84] else []) in
+  (b0 < 256 /\ b1 < 256 /\ b2 < 256 /\ g0 < 256 /\ g1 < 256) /\
+  objid = b0 + 256 * b1 + 65536 * b2 /\ gen = g0 + 256 * g1 /\
+  (V <? 5 = true ->
+     kd_compute_data_key key objid gen aes V = firstn (Nat.min (length input) 16) (md5 input) /\
+     forall R, rv_consistent R V -> (aes = false \/ (11 <= length key)%nat) ->
+       iso_object_key (c06_dict_R R) key aes objid gen = firstn (Nat.min (length input) 16) (md5 input)) /\
+  (5 <=? V = true -> kd_compute_data_key key objid gen aes V = key).
+Proof.
+  intros key objid gen aes V Ho Hg. cbv zeta.
+  assert (Hb2 : objid / 65536 < 256) by (apply N.div_lt_upper_bound; lia).
+  assert (Hg1 : gen / 256 < 256) by (apply N.div_lt_upper_bound; lia).
+  assert (E2 : (objid / 65536) mod 256 = objid / 65536) by (apply N.mod_small; exact Hb2).
+  assert (E3 : (gen / 256) mod 256 = gen / 256) by (apply N.mod_small; exact Hg1).
+  split; [repeat split; try (apply N.mod_lt; discriminate); assumption|].
+  split.
+  { rewrite (N.div_mod objid 65536) at 1 by discriminate.
+    assert (H : objid mod 65536 = objid mod 256 + 256 * ((objid / 256) mod 256)).
+    { change 65536 with (256 * 256). rewrite N.mod_mul_r by discriminate. reflexivity. }
+    rewrite H. lia. }
+  split; [rewrite (N.div_mod gen 256) at 1 by discriminate; lia|].
+  assert (Hkd : V <? 5 = true ->
+    kd_compute_data_key key objid gen aes V =
+    firstn (Nat.min (length (key ++ [objid mod 256; (objid / 256) mod 256; objid / 65536; gen mod 256; gen / 256] ++
+                              (if aes then [115; 65; 108; 84] else []))) 16)
+           (md5 (key ++ [objid mod 256; (objid / 256) mod 256; objid / 65536; gen mod 256; gen / 256] ++
+                 (if aes then [115; 65; 108; 84] else [])))).
+  { intros HV. unfold kd_compute_data_key.
+    replace (5 <=? V) with false by (symmetry; apply N.leb_gt; apply N.ltb_lt; exact HV).
+    rewrite obj_bytes_agree, E2, E3.
+    set (ext := key ++ _ ++ _).
+    rewrite (firstn_min_length (length ext)), length_md5. rewrite (firstn_min_length (Nat.min _ _)), length_md5.
+    reflexivity. }
+  split.
+  - intros HV. split; [exact (Hkd HV)|].
+    intros R Hrv Hk. rewrite (object_key_agrees (c06_dict_R R) key aes objid gen V Hrv Hk). exact (Hkd HV).
+  - intros HV. unfold kd_compute_data_key. rewrite HV. reflexivity.
+Qed.
+
 Print Assumptions c06_apply_iso_encrypt.
+Print Assumptions data_key_bytes_lemma.
